@@ -145,6 +145,14 @@ def run(ctx):
         ctx.cov["exit_sites"] = len(sites)
     except Exception as e:
         ctx.oblige("T-exit translator parses the current source", False, "table", str(e))
+    try:
+        from translators import t_loops
+        tl = t_loops.regenerate(common.REPO, common.LEAN_DIR, common.write_if_changed)
+        import collections
+        ctx.oblige("T-loops: %d loops of tokenize.cpp classified %s" % (len(tl["loops"]), dict(collections.Counter(l["class"] for l in tl["loops"]))),
+                   True, "table")
+    except Exception as e:
+        ctx.oblige("T-loops: loops of tokenize.cpp classified", False, "table", str(e))
     ctx.lean_obligations()
 
     # the quick tier explores a FIXED universe (seed-independent) plus a small seed-dependent part, so that the defects of the
